@@ -71,8 +71,9 @@ def ndarray2utpm(A):
     A = numpy.ravel(A)
     retval = zeros(shp,dtype=A[0])
 
-    for na, a in enumerate(A):
-        retval[na] = a
+    # fill in row-major order, also for containers with more than one axis
+    for na, idx in enumerate(numpy.ndindex(*shp)):
+        retval[idx] = A[na]
 
     return retval
 
